@@ -34,6 +34,20 @@ K6 = [
      "tiers": ("quick", "thorough") if n <= 2 else ("thorough",),
      "what": "real s_to_anchor(s, %d, %s) (f64 code) returns the reference release's anchor (k, flips, offset bits) for every s" % (n, o)}
     for n in (1, 2, 3) for o in ("uv", "vu", "uw", "wu", "vw", "wv")
+] + [
+    {"file": "k6_walk.rs", "harness": "k6_walk_equiv_n%d_%s" % (n, o), "kind": "bounded",
+     "bound": "curve depth n = %d: every position s < 4^%d (symbolic), orientation %s" % (n, n, o),
+     "tiers": ("quick", "thorough") if n <= 3 else ("thorough",),
+     "what": "real s_to_anchor(s, %d, %s) == a frozen copy of the reference release's code (ref_s_to_anchor and its helpers/tables), "
+             "k / flips / offset bit for bit, for every position of that depth" % (n, o)}
+    for n in (3, 4, 6) for o in ("uv", "vu", "uw", "wu", "vw", "wv")
+] + [
+    {"file": "k6_locate.rs", "harness": "k6_locate_equiv_n%d_%s" % (n, o), "kind": "bounded",
+     "bound": "curve depth n = %d: every f64 pair with |x|,|y| <= 2^%d, orientation %s" % (n, n + 1, o),
+     "tiers": ("thorough",),
+     "what": "real ij_to_s(IJ(x, y), %d, %s) == a frozen copy of the reference release's code (ref_ij_to_s and its helpers/tables) for "
+             "every pair of f64 coordinates in the lattice range of that depth" % (n, o)}
+    for n in (1, 2) for o in ("uv", "vu", "uw", "wu", "vw", "wv")
 ]
 
 K17 = [{"file": "k6_hilbert.rs", "harness": "k6_ij_to_quaternary_equiv", "kind": "full-domain",
@@ -156,19 +170,20 @@ PROPS = {
     "C14": {
         "units": ["compact", "glue"],
         "bounded_ops": [
-            {"op": "lonlat_to_cell", "budget": 600, "what": "lonlat_to_estimate is NOT under contract (float: nearest face, projection, "
-             "ij_to_s) and lonlat_to_cell is verified against an ASSUMED contract for it: bounded cross-check on the real code - for "
-             "extreme and random lon/lat x i32 resolutions the call returns, and an Ok result is a canonical ID of the requested "
+            {"op": "lonlat_to_cell", "budget": 600, "what": "bounded cross-check of the float-layer assumptions on the real code: for "
+             "extreme and random lon/lat x i32 resolutions lonlat_to_cell returns, and an Ok result is a canonical ID of the requested "
              "resolution"},
         ],
         "rlimit": 30,
         "level": "proof",
         "assumptions": STD_ASSUME + [
             "float layer (projections, tiling, pentagon geometry) assumed total; only the integer arguments handed to it are obligations",
-            "lonlat_to_cell is verified (Err for resolutions outside -1..29; an Ok result is a canonical ID of the requested resolution; "
-            "cells[0] exists) with its float expressions, HashSet and sort_by replaced by stubs (item-local rewrites listed in the "
-            "evidence) and lonlat_to_estimate as an external stub whose ASSUMED contract is: result carries the requested resolution, "
-            "face id < 12, segment < 5",
+            "lonlat_to_cell and lonlat_to_estimate are verified (Err for resolutions outside -1..29; an Ok result is a canonical ID of "
+            "the requested resolution; cells[0] exists; the estimate carries the requested resolution, a face id < 12 and a segment "
+            "< 5; ij_to_s is called with a depth in 1..=28) with their float expressions (sampling spiral, rotation into the first "
+            "fifth, scaling), HashSet and sort_by replaced by stubs (item-local rewrites listed in the evidence); the float callees "
+            "(find_nearest_origin, projection, to_polar, get_quintant_polar, quintant_to_segment, face_to_ij, ij_to_s) are external "
+            "stubs with ASSUMED integer contracts (table element, quintant < 5, segment < 5)",
             "allocation failure not modelled; calls whose honest fan-out exceeds 4^8 are out of scope (uncompact_scope)",
             "internal functions (serialize, is_first_child, get_stride, get_num_children) carry preconditions derived from "
             "their call sites; each is an obligation at every call site in the units",
@@ -237,7 +252,8 @@ PROPS = {
         "units": ["memo"],
         "level": "proof",
         "assumptions": [
-            "ONLY single-thread history independence of the two lazily filled projection caches (30 + 240 slots) is decided",
+            "ONLY single-thread history independence of the projection object (its two lazily filled caches, 30 + 240 slots, and its "
+            "forward / inverse methods) is decided by proof; the rest of the API only by the bounded purity op",
             "ASSUMED, not decided: thread_local! gives each thread its own DodecahedronProjection; get_thread_local() hands out "
             "&'static mut from a raw pointer (unsafe; aliasing discipline not checked); OnceLock / lazy_static initialise once with the "
             "initialiser's value. Kani has no threads and Verus would need the code rewritten over its permission types - the schedule "
@@ -255,9 +271,11 @@ PROPS = {
              "shuffled order) and in fresh threads after other threads used the library"},
         ],
         "search_ops": ["purity"],
-        "level_text": "Proof (Verus/Z3) on the real get_face_triangle and get_spherical_triangle (&mut self, Vec<Option<_>> caches): "
-                      "representation invariant 'every filled slot holds the value of its own key' is preserved, the result equals "
-                      "spec(key) whatever the cache contents (history independence on one thread), and only the call's own slot changes.",
+        "level_text": "Proof (Verus/Z3) on the real get_face_triangle, get_spherical_triangle, get_face_triangle_index, forward and inverse "
+                      "of DodecahedronProjection (&mut self, Vec<Option<_>> caches): representation invariant 'every filled slot holds "
+                      "the value of its own key' is preserved, the memo functions return spec(key) whatever the cache contents and "
+                      "change only their own slot, and forward()/inverse() return spec_forward/spec_inverse - a composition of the "
+                      "(assumed deterministic) float callees that does not mention the cache: history independence on one thread.",
         "level_note": "The slot-index arithmetic (idx + 10/20, 10*origin + idx + 120) is what the proof pins: any collision between "
                       "two keys breaks the invariant or the result postcondition.",
         "technique": "Verus representation invariant + frame conditions on extracted real &mut self methods",
